@@ -240,3 +240,48 @@ def run_c18(ctx):
         "wall_s": round(time.time() - t0, 1),
     })
     return cov
+
+
+# ------------------------------------------------------------------------------------------ replay
+
+def replay(ctx, pid):
+    """./check Cxx --replay <file>: the bytes of a replay file written by report_fails (or a raw .ovmb file) through the
+    real reader in every configuration, judged against the model and the oracles like any mutant."""
+    res = proof_part(ctx, pid)
+    drv = oc.driver("io_drv")
+    judge = oc.judge_exe()
+    wd = oc.workdir(ctx, "replay-" + pid.lower())
+    raw = Path(ctx.replay).read_bytes()
+    data, fa = None, -1
+    try:
+        txt = raw.decode("ascii")
+        m = re.search(r"^bytes \(\d+\): ([0-9a-f]*)\s*$", txt, re.M)
+        if m:
+            data = bytes.fromhex(m.group(1))
+        m2 = re.search(r"read-fault position (-?\d+)", txt)
+        if m2:
+            fa = int(m2.group(1))
+    except (UnicodeDecodeError, ValueError):
+        pass
+    if data is None:
+        data = raw
+    cases = wd / "cases.txt"
+    cases.write_text("CASE r p replay gc=0\nW Ok\nB %s\nEND\n" % (data.hex() or "-"))
+    cfgs = [(mk, tc, bu) for mk in "pth" for tc in (0, 1) for bu in (0, 1)]
+    jobs = wd / "jobs.txt"
+    jobs.write_text("".join("J r.%d %s %d %d %d 0 %s\n" % (i, mk, tc, bu, fa, data.hex() or "-") for i, (mk, tc, bu) in enumerate(cfgs)))
+    out = oc.run_shards(drv, lambda i: ["read", jobs], 1, lambda i: wd / "res.txt", ctx.seed)[0]
+    recs = wd / "recs.txt"
+    with open(recs, "w") as f:
+        for l in open(out):
+            if l.startswith("R "):
+                i = int(l.split()[1].split(".")[1])
+                mk, tc, bu = cfgs[i]
+                f.write("X r.%d r %s %d %d %d 0 replay -\n" % (i, mk, tc, bu, fa))
+            f.write(l)
+    r = oc.run_judge(judge, ["mut", cases, recs])
+    rep = report(ctx, pid, drv, r["fails"], "ovmb-replay")
+    cov = proof.proof_coverage(res)
+    cov.update({"evaluations": len(cfgs), "judge": plain(r["stats"]), "results": hist_of(r["stats"]), "failures": rep,
+                "explanation": "replay of %s (%d bytes) through the real reader in %d configurations, judged against the model" % (ctx.replay, len(data), len(cfgs))})
+    return cov
